@@ -75,6 +75,18 @@ static InstResult run_unary(const std::vector<CrashInfo> &cr, size_t maxlen) {
 				// iteration / indexing
 				std::string it; for(char ch : a) it.push_back(ch);
 				EXPECT(it == s, "C15", "string:iteration", "begin()..end() differs");
+				{ const Str &ca = a; std::string cit; for(char ch : ca) cit.push_back(ch); EXPECT(cit == s && ca.begin() == a.data() && ca.end() == a.data() + s.size(), "C15", "string:const-iteration", "const begin()..end() differs"); }
+				// detach(): the string gives up its buffer (the caller owns and frees it) and is empty afterwards
+				{
+					Str g(a);
+					char *buf = g.data(); size_t glen = g.size();
+					g.detach();
+					EXPECT(g.size() == 0 && g.data() == nullptr, "C15", "string:detach:state", "a detached string is not empty");
+					EXPECT(buf && std::string(buf, glen) == s && buf[glen] == 0, "C15", "string:detach:buffer", "the detached buffer does not hold the contents");
+					TrackAlloc{}.free(buf);
+					g += View("ab", 2);
+					check_owned(g, "ab", "append-after-detach");
+				}
 				for(size_t i = 0; i < s.size(); i++) EXPECT(a[i] == s[i] && v[i] == s[i], "C15", "string:index", "operator[] differs");
 				// hashing: string and view agree, equal contents -> equal hash
 				unsigned h1 = frg::hash<Str>{}(a), h2 = frg::hash<View>{}(v), h3 = frg::hash<Str>{}(c);
